@@ -4,6 +4,10 @@
 using namespace vd;
 namespace dl = dsplib;
 
+//the gain is computed in the dB domain (T + (x-T)/R - x ...): its rounding error is a few ulp of the *level* (up to ~1e-13 dB for
+//levels of hundreds of dB), i.e. up to ~1e-14 relative in the linear gain; "gain in [0,1]" is judged with this slack
+static const double GAIN_SLACK = 1e-12;
+
 //static characteristic in dB (long double); R = 0 means limiter
 static ld curve(ld x, ld T, ld W, ld R) {
     const ld invR = (R > 0) ? 1 / R : 0;
@@ -77,7 +81,7 @@ static void check_static(const DynCfg& c, bool limiter, vh::Rng& r, bool thoroug
         const ld got = 20 * log10l(fabsl(ld(out[i])));
         const ld dev = fabsl(got - want);
         vh::obs_max(std::string("static_curve_dev_db_") + kind, double(dev));
-        if (!(gain[i] >= 0 && gain[i] <= 1 + 4 * ref::EPS)) {
+        if (!(gain[i] >= 0 && gain[i] <= 1 + GAIN_SLACK)) {
             vh::violation(vh::fmt("C20/%s/gain_range", kind), cfg + vh::fmt(": gain %.17g for an input level of %.4Lf dB", gain[i], xin));
             return;
         }
@@ -121,11 +125,11 @@ static void check_arbitrary(const DynCfg& c, vh::Rng& r, int N) {
     vh::count(hh.get(), true);
     auto range_ok = [&](const char* kind, const arr_real& gain, const arr_real& out) {
         for (int i = 0; i < N; ++i) {
-            if (!(gain[i] >= 0 && gain[i] <= 1 + 4 * ref::EPS) || !std::isfinite(out[i])) {
+            if (!(gain[i] >= 0 && gain[i] <= 1 + GAIN_SLACK) || !std::isfinite(out[i])) {
                 vh::violation(vh::fmt("C20/%s/gain_range", kind), vh::fmt("%s %s: gain %.17g at sample %d (input %.6g)", kind, cfg.c_str(), gain[i], i, x[i]));
                 return;
             }
-            if (std::fabs(out[i]) > std::fabs(x[i]) * (1 + 8 * ref::EPS)) {
+            if (std::fabs(out[i]) > std::fabs(x[i]) * (1 + GAIN_SLACK)) {
                 vh::violation(vh::fmt("C20/%s/amplifies", kind), vh::fmt("%s %s: |out| %.17g > |in| %.17g at sample %d", kind, cfg.c_str(), std::fabs(out[i]), std::fabs(x[i]), i));
                 return;
             }
